@@ -351,6 +351,32 @@ var c33TypeOps = []string{"reg-type", "reg-type", "reg-type", "find-msg", "find-
 var c33ReadFileOps = []string{"find", "find", "find", "find-path", "num-files", "range-files", "num-by-pkg", "range-by-pkg"}
 var c33ReadTypeOps = []string{"find-msg", "find-enum", "find-ext", "find-ext-num", "find-url", "num-types", "range-types", "range-ext-of"}
 
+// c33URL writes a type URL for name in one of several shapes, some of which do not name it at all.
+func c33URL(name string, m int64) string {
+	switch (m / 4) % 8 {
+	case 0:
+		return name
+	case 1:
+		return "a/b/" + name
+	case 2:
+		return name + "/" // nothing follows the last slash: names no type
+	case 3:
+		return "host/" + name + "//"
+	case 4:
+		return "/" + name
+	case 5:
+		return name + "/x"
+	}
+	return "type.googleapis.com/" + name
+}
+
+func c33URLName(url string) string {
+	if i := strings.LastIndexByte(url, '/'); i >= 0 {
+		return url[i+1:]
+	}
+	return url
+}
+
 func c33RandOp(r *sim.Rng, pool []string) scn.Op {
 	return scn.Op{Op: pool[r.Intn(len(pool))], N: int64(r.Intn(1 << 20)), M: int64(r.Intn(1 << 20))}
 }
@@ -501,7 +527,8 @@ func c33Expect(w *c33World, st c33State, op *scn.Op, global bool) (string, c33St
 	case "find-msg":
 		return findRes(u.FindType(st.T, t.Name, "message")), st
 	case "find-url":
-		return findRes(u.FindType(st.T, t.Name, "message")), st
+		// the name is what follows the last slash of the URL; nothing else of the URL matters
+		return findRes(u.FindType(st.T, c33URLName(c33URL(t.Name, op.M)), "message")), st
 	case "find-enum":
 		return findRes(u.FindType(st.T, t.Name, "enum")), st
 	case "find-ext":
@@ -634,7 +661,7 @@ func c33Apply(w *c33World, files *protoregistry.Files, types *protoregistry.Type
 		}
 		return typeID(mt)
 	case "find-url":
-		mt, err := types.FindMessageByURL("type.googleapis.com/" + t.Name)
+		mt, err := types.FindMessageByURL(c33URL(t.Name, op.M))
 		if err != nil {
 			return errStr(err)
 		}
